@@ -23,6 +23,9 @@ def run_check(prop, tier="quick", root=None, quiet=False):
             mod.check(rep)
             if tier == "thorough" and hasattr(mod, "check_thorough"):
                 mod.check_thorough(rep)
+            from .rules.common import rule_debug_pure
+
+            rule_debug_pure(rep, set(rep.repo.consulted))
         except Exception as e:  # never a traceback-exit-1
             with rep.rule("internal", "checker crashed") as r:
                 raise
